@@ -153,6 +153,27 @@ prop("C03", level="proof",
      functions=REPR_CORE + HB + ["Drop::drop", "LeanString::clear", "Clone::clone_from"], verus=["v_hist"], trust=[],
      not_covered=["FromIterator<char>'s bare Repr accumulator when the iterator panics (unwinding; see C18)"])
 
+prop("C04", level="other",
+     claim="Thread-modular (rely/guarantee) check of the reference-count protocol on the REAL code through the crate's own cfg(loom) "
+           "seam, under sequential consistency: each count-touching operation (reserve, ensure_modifiable, shrink_to, clone, drop, clear) "
+           "runs as one thread against an environment that holds any number of other handles on the same block and may clone or drop "
+           "any of them - including dropping the last one and freeing the block - at every atomic operation; obligations: no access to a "
+           "freed block (Kani pointer checks), count == number of handles afterwards, bytes and capacity stable while readers exist, "
+           "release only as last owner, the thread reads back its own text; plus the minimum memory orderings of the protocol as "
+           "obligations of the atomic API (decrement at least Release; an Acquire between observing sole ownership and "
+           "dealloc / realloc / exclusive use). This is NOT a proof over all C11 executions.",
+     functions=["Repr::reserve", "Repr::ensure_modifiable", "Repr::shrink_to", "Repr::make_shallow_clone", "Repr::replace_inner",
+                "LeanString::clear", "HeapBuffer::is_unique", "HeapBuffer::reference_count"],
+     verus=[],
+     trust=["the environment model in shim/loom/src/lib.rs: other owners only clone/drop (they never write the text - their guarantee is "
+            "C02 of this same code), cannot obtain a handle when they hold none, and act atomically at atomic-operation points (complete "
+            "for SC because their steps depend on the count only)",
+            "the ordering side-conditions are the documented Arc protocol, stated by me, not derived from the C11 model"],
+     bounded_notes=[{"what": "block capacity <= 64 in the interference harnesses"}],
+     not_covered=["weak-memory executions not excluded by the two ordering side-conditions", "more than one thread of the code under test "
+                  "mutating through the same &mut (excluded by Rust's aliasing rules)", "the 32-bit length-on-heap path of truncate",
+                  "loom's own tests (tests/loom.rs)"])
+
 prop("C05", level="proof",
      claim="Every harness runs with an allocator that may refuse ANY request; for every operation and storage state: Err => handle bits, "
            "reference count, block contents and the live set exactly as before, post-state well-formed (hence usable and released "
@@ -265,6 +286,19 @@ prop("C17", level="proof",
      verus=[], trust=["Debug delegates to str's Debug exactly as Display does (same shape, not run)"],
      bounded_notes=[{"what": "comparison/hash/Display harnesses: texts <= 18 bytes (6 for Display)"}],
      not_covered=["PartialEq<String> directions (identical body to the str ones)", "HashMap/BTreeMap lookups (consequence of Borrow + Eq/Hash/Ord agreement)"])
+
+prop("C19", level="proof",
+     claim="Built with --features serde,arbitrary in the scratch copy. Serialize: exactly one serialize_str of exactly as_str() (pointer and "
+           "length) and no other serializer call - what str/String do; Deserialize: requests a string, and each of visit_str / "
+           "visit_borrowed_str / visit_bytes / visit_borrowed_bytes yields exactly the input text (symbolic length), bytes being rejected "
+           "with one invalid_value error exactly when the core validator rejects them (validator replaced by an arbitrary verdict); "
+           "Arbitrary: arbitrary / arbitrary_take_rest / size_hint equal <&str>'s on the same bytes (bounded).",
+     functions=["Serialize for LeanString", "Deserialize for LeanString (LeanStringVisitor)", "Arbitrary for LeanString"],
+     verus=[],
+     trust=["what serde_json / other formats do with one serialize_str call is serde's", "String's own Serialize/Deserialize being the same "
+            "single serialize_str / string visitor (documented serde behaviour)"],
+     bounded_notes=[{"what": "Serialize: text <= 18 bytes (any storage kind); Arbitrary: Unstructured over <= 4 bytes with an ASCII-only validator"}],
+     not_covered=["escapes / framing of concrete formats (serde_json)"])
 
 prop("C20", level="proof",
      claim="const size/alignment assertions are discharged by every build of the scratch copy; every well-formed value has last byte <= 0xD1 "
